@@ -14,7 +14,7 @@ def run(res):
 
 
 def _run(res, work):
-    ok, tlog = common.regen_tables()
+    ok, tlog = common.regen_tables("C04")
     lean = common.lean_obligations("C04", res.tier)
     broken = []
     if not ok:
